@@ -18,14 +18,17 @@ BASES = {
     "r1": ("refuse", "accept"),
     "r3": ("refuse",) * 3 + ("accept",),
     "r7": ("refuse",) * 7 + ("accept",),
+    "u2": ("unreachable", "timeout", "accept"),       # failing connects that are OSError / TimeoutError, not ConnectionError
+    "n2": ("noport", "noport", "accept"),             # serial port missing (SerialException)
 }
 GARBAGE = {"ebyte": b"\x01\x02\x03\x04\x05", "actisense": b"garbage\r\nA0000", "yd": b"\xff\xfe garbage\r\n00:00", "waveshare": b"\xaa\x55\x00\x01"}
-FAULTS = ("eof", "reset", "write_fail", "garbage_eof", "refuse_next")
+FAULTS = ("eof", "reset", "write_fail", "garbage_eof", "refuse_next", "unreach_next")
 
 
 def specials(kind):
     return {"eof": sp_eof, "reset": sp_reset, "write_fail": sp_write_fail,
-            "garbage_eof": sp_garbage_eof(GARBAGE[kind]), "refuse_next": sp_refuse_next}
+            "garbage_eof": sp_garbage_eof(GARBAGE[kind]), "refuse_next": sp_refuse_next,
+            "unreach_next": vloop.sp_fail_next("noport" if kind == "waveshare" else "unreachable")}
 
 
 def make_kwargs_factory(kind, base):
@@ -156,16 +159,18 @@ def plan(ctx):
     for kind in vloop.KINDS:
         if ctx.thorough:
             for f in names:
-                tasks.append((kind, "r1", 3, ["eof", "reset", "write_fail", "refuse_next"], [f]) if f != "garbage_eof" else (kind, "r1", 2, names, [f]))
+                tasks.append((kind, "r1", 3, ["eof", "reset", "write_fail", "refuse_next"], [f]) if f in ("eof", "reset", "write_fail", "refuse_next") else (kind, "r1", 2, names, [f]))
                 tasks.append((kind, "r0", 2, names, [f]))
             tasks.append((kind, "r3", 2, names, None))
             tasks.append((kind, "r7", 1, names, None))
+            tasks.append((kind, "n2" if kind == "waveshare" else "u2", 2, names, None))
         else:
             for f in names:
                 tasks.append((kind, "r1", 2, names, [f]))
             tasks.append((kind, "r0", 1, names, None))
             tasks.append((kind, "r3", 1, names, None))
             tasks.append((kind, "r7", 1, ["eof", "reset"], None))
+            tasks.append((kind, "n2" if kind == "waveshare" else "u2", 1, names, None))
     return tasks
 
 
@@ -196,7 +201,7 @@ def run(ctx):
                 "open more than one connection",
         "samples": samples[:4], "configs": per, "distinct_outcomes": outcomes,
         "bound_completed": ("k=3 over {eof,reset,write_fail,refuse_next} on r1, k=2 on r0/r3, k=1 on r7" if ctx.thorough
-                            else "k=2 on r1 (all five fault kinds), k=1 on r0/r3/r7"),
+                            else "k=2 on r1 (all six fault kinds), k=1 on r0/r3/r7 and on the bases whose connects fail with OSError/TimeoutError/SerialException"),
         "exhaustive": True,
         "explanation": "every execution runs the real client on the virtual loop to quiescence; 'states' counts judged executions",
     }
